@@ -17,6 +17,7 @@ import (
 
 // Program is the loaded, type-checked and SSA-built view of one source tree (E1).
 type Program struct {
+	Renamed []string // renamed anchors recovered by applyRenames (new -> baseline name)
 	Dir     string
 	Fset    *token.FileSet
 	Pkgs    []*packages.Package          // packages of the tree itself (not deps)
@@ -49,9 +50,15 @@ func shortPkg(path string) string {
 }
 
 // funcName renders a stable, position-free name for a function object.
+// funcAlias: renamed unexported functions answer to the name the rules know them by (see applyRenames).
+var funcAlias = map[*types.Func]string{}
+
 func funcName(obj *types.Func, modPath string) string {
 	if obj == nil {
 		return "?"
+	}
+	if a, ok := funcAlias[obj.Origin()]; ok {
+		return a
 	}
 	pkg := ""
 	if obj.Pkg() != nil {
@@ -216,8 +223,90 @@ func Load(o LoadOpts) (*Program, error) {
 			}
 		}
 	}
+	P.applyRenames(baselineFuncs())
 	sort.Slice(P.Funcs, func(i, j int) bool { return P.Funcs[i].Name < P.Funcs[j].Name })
 	return P, nil
+}
+
+// applyRenames: an unexported function the rules are anchored on may have been renamed. If a baseline name is gone and
+// exactly one function that is not in the baseline has the same package, receiver and parameter/result types, that
+// function answers to the old name from here on (in anchors and in every call event). This never hides anything: the
+// rules are applied to the candidate as they would have been to the original, and fail closed if it is something else.
+func (P *Program) applyRenames(baseline map[string]bool) {
+	if P.ModPath != "gopkg.in/typ.v4" || len(baseline) == 0 {
+		return
+	}
+	shape := func(fi *FuncInfo) string {
+		sig := fi.Obj.Type().(*types.Signature)
+		var sb strings.Builder
+		i := strings.LastIndex(fi.Name, ".")
+		sb.WriteString(fi.Name[:i+1]) // package and receiver
+		q := func(*types.Package) string { return "" }
+		for k := 0; k < sig.Params().Len(); k++ {
+			sb.WriteString("|" + types.TypeString(sig.Params().At(k).Type(), q))
+		}
+		sb.WriteString("->")
+		for k := 0; k < sig.Results().Len(); k++ {
+			sb.WriteString("|" + types.TypeString(sig.Results().At(k).Type(), q))
+		}
+		if sig.Variadic() {
+			sb.WriteString("...")
+		}
+		return sb.String()
+	}
+	byShape := map[string][]*FuncInfo{}
+	for _, fi := range P.Funcs {
+		if !baseline[fi.Name] && !fi.Obj.Exported() {
+			byShape[shape(fi)] = append(byShape[shape(fi)], fi)
+		}
+	}
+	if len(byShape) == 0 {
+		return
+	}
+	// shapes of the missing baseline functions are not recorded; recover them from the name alone: the prefix
+	// (package and receiver) must match and the candidate must be the only new function with that prefix and shape
+	var missing []string
+	for name := range baseline {
+		if P.ByName[name] == nil {
+			missing = append(missing, name)
+		}
+	}
+	sort.Strings(missing)
+	used := map[*FuncInfo]bool{}
+	for _, name := range missing {
+		i := strings.LastIndex(name, ".")
+		if i < 0 || i+1 >= len(name) || !(name[i+1] >= 'a' && name[i+1] <= 'z' || name[i+1] == '_') {
+			continue // only unexported names
+		}
+		prefix := name[:i+1]
+		var cands []*FuncInfo
+		for sh, fis := range byShape {
+			if strings.HasPrefix(sh, prefix+"|") || strings.HasPrefix(sh, prefix+"->") {
+				for _, fi := range fis {
+					if !used[fi] {
+						cands = append(cands, fi)
+					}
+				}
+			}
+		}
+		// other missing names with the same prefix compete for the same candidates: require a 1:1 situation
+		competitors := 0
+		for _, m := range missing {
+			if strings.HasPrefix(m, prefix) && strings.LastIndex(m, ".") == i {
+				competitors++
+			}
+		}
+		if len(cands) != 1 || competitors != 1 {
+			continue
+		}
+		fi := cands[0]
+		used[fi] = true
+		P.Renamed = append(P.Renamed, fi.Name+" -> "+name)
+		delete(P.ByName, fi.Name)
+		fi.Name = name
+		P.ByName[name] = fi
+		funcAlias[fi.Obj.Origin()] = name
+	}
 }
 
 // Pos renders a position relative to the tree root.
